@@ -23,6 +23,7 @@ type FuncResult struct {
 	IntExprs []string
 	Source   string
 	IsTarget bool
+	Notes    []string // assumptions / preconditions stated in the generated header
 }
 
 // Sig describes the translated function for the execution path.
@@ -30,13 +31,19 @@ type Sig struct {
 	Params    []Param  // in Lean order (receiver first, then parameters, then extern parameters)
 	Results   []string // protocol kinds of the results (the updated receiver last when RecvOut)
 	RecvOut   bool
-	TParams   []string
+	TParams   []string // every Go type parameter (receiver's first)
+	Erased    []string // type parameters whose type set is one Lean type: no Lean type variable
 	GoParams  []Param // the Go parameters (without receiver/extern), for the shim
 	HasRecv   bool
 	RecvPtr   bool
 	RecvType  string
 	Externs   []Param
 	Droppable []string // Go parameters dropped from the Lean signature
+	// InOut: indices (into the Go parameter list) of the written slice parameters: the function
+	// returns their final values after its results (before the updated receiver).
+	InOut []int
+	// ErrClasses: the error classes the function (and its callees) can produce, sorted.
+	ErrClasses []string
 }
 
 type Param struct {
@@ -83,6 +90,13 @@ type fn struct {
 	recvTy   *ty
 	loopDepth int
 	extSeen   map[string]bool
+	recvPtr   bool
+	parents   map[ast.Node]ast.Node
+	inout     []*types.Var          // written slice parameters (in-out, state passing), in parameter order
+	inoutSet  map[types.Object]bool
+	funcPar   map[types.Object]*ty  // callback parameters
+	notes     []string
+	errCls    map[string]bool
 }
 
 func (t *fn) reject(n ast.Node, format string, a ...any) {
@@ -550,11 +564,21 @@ func (t *fn) call(x *ast.CallExpr, want int) []string {
 	if tv, ok := t.pkg.info.Types[x.Fun]; ok && tv.IsType() {
 		return []string{t.convert(x, tv.Type)}
 	}
+	// builtins
+	fun := ast.Unparen(x.Fun)
+	if id, ok := fun.(*ast.Ident); ok && x.Ellipsis != token.NoPos {
+		if b, ok := t.pkg.info.ObjectOf(id).(*types.Builtin); ok && b.Name() == "append" && len(x.Args) == 2 {
+			lt := t.tyOf(x.Args[0])
+			rt := t.tyOf(x.Args[1])
+			if lt.k == kList && rt.k == kList && sameTy(lt.elem, rt.elem) {
+				a := t.ex(x.Args[0])
+				return []string{"(" + a + " ++ " + t.ex(x.Args[1]) + ")"}
+			}
+		}
+	}
 	if x.Ellipsis != token.NoPos {
 		t.reject(x, "variadic spread call is outside the subset")
 	}
-	// builtins
-	fun := ast.Unparen(x.Fun)
 	if id, ok := fun.(*ast.Ident); ok {
 		if b, ok := t.pkg.info.ObjectOf(id).(*types.Builtin); ok {
 			return []string{t.builtin(x, b.Name())}
@@ -571,6 +595,13 @@ func (t *fn) call(x *ast.CallExpr, want int) []string {
 			callee, _ = t.pkg.info.ObjectOf(id).(*types.Func)
 		}
 	}
+	if id, ok := fun.(*ast.Ident); ok {
+		if v, ok := t.pkg.info.ObjectOf(id).(*types.Var); ok {
+			if ft := t.funcPar[v]; ft != nil {
+				return t.callbackCall(x, v, ft, want)
+			}
+		}
+	}
 	if callee == nil {
 		t.reject(x, "call of `%s`: not a declared function (function values, interface methods and closures are outside the subset)", t.text(x.Fun))
 	}
@@ -579,12 +610,20 @@ func (t *fn) call(x *ast.CallExpr, want int) []string {
 		t.noteInt(x)
 		return []string{"(" + lf + " " + t.ex(x.Args[0]) + ")"}
 	}
+	switch full {
+	case "encoding/hex.EncodedLen":
+		t.noteInt(x)
+		return []string{"(" + t.ex(x.Args[0]) + " * (2 : Int))"}
+	case "encoding/hex.DecodedLen":
+		t.noteInt(x)
+		return []string{"(Int.tdiv " + t.ex(x.Args[0]) + " (2 : Int))"}
+	}
 	if callee.Pkg() == nil || !(callee.Pkg().Path() == t.g.l.modPath || strings.HasPrefix(callee.Pkg().Path(), t.g.l.modPath+"/")) {
 		t.reject(x, "call of `%s`: no Go semantics for this function in GoSem (add an extern option or a GoSem definition)", full)
 	}
 	sig := callee.Type().(*types.Signature)
 	if sig.Recv() != nil {
-		t.reject(x, "method call `%s` inside a translated function is outside the subset", t.text(x.Fun))
+		return t.recvMethodCall(x, callee)
 	}
 	dir := strings.TrimPrefix(strings.TrimPrefix(callee.Pkg().Path(), t.g.l.modPath), "/")
 	if dir == "" {
@@ -596,6 +635,27 @@ func (t *fn) call(x *ast.CallExpr, want int) []string {
 	}
 	if len(dep.Sig.Externs) > 0 {
 		t.reject(x, "callee %s takes extern parameters", callee.Name())
+	}
+	// in-out slice arguments: the no-alias precondition of the callee is established here — the
+	// argument is a variable nobody else can refer to (a local created by make/append/literal in this
+	// function, or an in-out parameter of this function, whose own precondition covers it) and it
+	// does not occur in any other argument; the caller's variable is rebound to the returned slice.
+	var outObjs []types.Object
+	for _, ix := range dep.Sig.InOut {
+		id, ok := ast.Unparen(x.Args[ix]).(*ast.Ident)
+		if !ok {
+			t.reject(x, "argument `%s` of %s is written by the callee: only a plain variable is in the subset there", t.text(x.Args[ix]), callee.Name())
+		}
+		o := t.pkg.info.ObjectOf(id)
+		if !t.inoutSet[o] && !t.freshLocal(o) {
+			t.reject(x, "argument `%s` of %s is written by the callee, but it is neither a local created by make/append/literal here nor an in-out parameter (it may alias another slice)", id.Name, callee.Name())
+		}
+		for j, a := range x.Args {
+			if j != ix && t.mentions(a, o) {
+				t.reject(x, "argument `%s` of %s is written by the callee and occurs in another argument too (aliasing)", id.Name, callee.Name())
+			}
+		}
+		outObjs = append(outObjs, o)
 	}
 	var args []string
 	for _, a := range x.Args {
@@ -610,7 +670,107 @@ func (t *fn) call(x *ast.CallExpr, want int) []string {
 	if nres == 0 {
 		pat = "_"
 	}
-	t.emit(fmt.Sprintf("let %s ← %s %s", pat, dep.LeanName, strings.Join(args, " ")))
+	if len(outObjs) > 0 {
+		var outs []string
+		for range outObjs {
+			outs = append(outs, t.fresh("io"))
+		}
+		if nres == 0 {
+			pat = tuple(outs)
+		} else {
+			pat = "(" + pat + ", " + strings.Join(outs, ", ") + ")"
+		}
+		t.emit(fmt.Sprintf("let %s ← %s %s", pat, dep.LeanName, strings.Join(args, " ")))
+		for i, o := range outObjs {
+			t.emit(fmt.Sprintf("let %s : %s := %s", t.nameOf(o), t.varTy(o).lean(), outs[i]))
+		}
+	} else {
+		t.emit(fmt.Sprintf("let %s ← %s %s", pat, dep.LeanName, strings.Join(args, " ")))
+	}
+	for _, c := range dep.Sig.ErrClasses {
+		t.errCls[c] = true
+	}
+	if nres == 0 {
+		return []string{"()"}
+	}
+	return names
+}
+
+// recvMethodDep: for a call `r.M(...)` where r is the receiver of the function being translated
+// and M a method of the same type, the translation of M (nil when the call has another shape).
+func (t *fn) recvMethodDep(x *ast.CallExpr) *FuncResult {
+	se, ok := ast.Unparen(x.Fun).(*ast.SelectorExpr)
+	if !ok || t.recvObj == nil {
+		return nil
+	}
+	id, ok := ast.Unparen(se.X).(*ast.Ident)
+	if !ok || t.pkg.info.ObjectOf(id) != t.recvObj {
+		return nil
+	}
+	callee, _ := t.pkg.info.ObjectOf(se.Sel).(*types.Func)
+	if callee == nil {
+		return nil
+	}
+	sel := t.pkg.info.Selections[se]
+	if sel == nil || sel.Kind() != types.MethodVal || len(sel.Index()) != 1 {
+		return nil
+	}
+	rn := recvName(t.decl.Recv.List[0].Type)
+	return t.g.translate(t.pkg.dir, rn+"."+callee.Name(), false)
+}
+
+// recvMethodCall: `r.M(args)` on the receiver itself — the callee is translated too and the
+// receiver is threaded through it (state passing).
+func (t *fn) recvMethodCall(x *ast.CallExpr, callee *types.Func) []string {
+	dep := t.recvMethodDep(x)
+	if dep == nil {
+		t.reject(x, "method call `%s`: only methods of the receiver of the translated method itself are in the subset", t.text(x.Fun))
+	}
+	if !dep.OK {
+		t.reject(x, "callee %s is not translatable: %s", dep.Key, dep.Reason)
+	}
+	if len(dep.Sig.Externs) > 0 {
+		t.reject(x, "callee %s takes extern parameters", dep.Key)
+	}
+	if len(dep.Sig.InOut) > 0 {
+		t.reject(x, "callee %s writes a slice parameter (in-out): method calls of that shape are outside the subset", dep.Key)
+	}
+	for _, c := range dep.Sig.ErrClasses {
+		t.errCls[c] = true
+	}
+	if dep.Sig.RecvPtr && !t.recvPtr && dep.Sig.RecvOut {
+		t.reject(x, "a value-receiver method calls the pointer-receiver method %s that writes the receiver: outside the subset", dep.Key)
+	}
+	rn := t.names[t.recvObj]
+	args := []string{rn}
+	for _, a := range x.Args {
+		args = append(args, t.arg(a))
+	}
+	sig := callee.Type().(*types.Signature)
+	nres := sig.Results().Len()
+	var names []string
+	for i := 0; i < nres; i++ {
+		names = append(names, t.fresh("r"))
+	}
+	pat := tuple(names)
+	if nres == 0 {
+		pat = "_"
+	}
+	if dep.Sig.RecvOut {
+		if !t.recvOut {
+			t.reject(x, "internal: receiver-writing callee found late")
+		}
+		nr := t.fresh("rc")
+		if nres == 0 {
+			pat = nr
+		} else {
+			pat = "(" + pat + ", " + nr + ")"
+		}
+		t.emit(fmt.Sprintf("let %s ← %s %s", pat, dep.LeanName, strings.Join(args, " ")))
+		t.emit(fmt.Sprintf("let %s : %s := %s", rn, t.recvTy.lean(), nr))
+	} else {
+		t.emit(fmt.Sprintf("let %s ← %s %s", pat, dep.LeanName, strings.Join(args, " ")))
+	}
 	if nres == 0 {
 		return []string{"()"}
 	}
@@ -683,6 +843,8 @@ func (t *fn) builtin(x *ast.CallExpr, name string) string {
 		r := t.fresh("m")
 		t.emit(fmt.Sprintf("let %s ← GoSem.makeSlice %s %s", r, z, n))
 		return r
+	case "copy":
+		t.reject(x, "copy(...) is translated only as a statement or as the whole right-hand side of `n := copy(dst, src)` (it rebinds dst)")
 	case "panic":
 		t.reject(x, "panic(...) in expression position")
 	}
@@ -838,9 +1000,12 @@ func (t *fn) composite(x *ast.CompositeLit) string {
 // ---------------------------------------------------------------- statements
 
 type ctx struct {
-	ret  func(val string) []string // `return val` (val = the tupled results, without the receiver)
-	brk  func() []string
-	cont func() []string
+	ret  func(val string) []string // `return val` (val = the tupled results, without the in-out parameters/receiver)
+	// retFull: return of a complete result (results, in-out parameters, receiver) that an inner loop
+	// handed up as `.ret`
+	retFull func(full string) []string
+	brk     func() []string
+	cont    func() []string
 }
 
 func (t *fn) withPre(f func() []string) []string {
@@ -956,6 +1121,8 @@ func (t *fn) assignedOuter(nodes ...ast.Node) []types.Object {
 				return
 			case *ast.IndexExpr:
 				e = x.X
+			case *ast.SliceExpr:
+				e = x.X
 			case *ast.SelectorExpr:
 				e = x.X
 			case *ast.StarExpr:
@@ -988,12 +1155,17 @@ func (t *fn) assignedOuter(nodes ...ast.Node) []types.Object {
 						mark(s.Value)
 					}
 				}
-			case *ast.ExprStmt:
-				// copy(dst, …) mutates dst
-				if ce, ok := s.X.(*ast.CallExpr); ok {
-					if id, ok := ast.Unparen(ce.Fun).(*ast.Ident); ok && id.Name == "copy" && len(ce.Args) > 0 {
-						mark(ce.Args[0])
-					}
+			case *ast.CallExpr:
+				// copy(dst, …) / copy(dst[a:b], …) mutates dst
+				if t.isBuiltinCall(s, "copy") && len(s.Args) > 0 {
+					mark(s.Args[0])
+				}
+				for _, a := range t.writtenArgs(s) {
+					mark(a)
+				}
+				// r.M(...) where M writes the receiver (state passing): r is assigned
+				if dep := t.recvMethodDep(s); dep != nil && dep.OK && dep.Sig != nil && dep.Sig.RecvOut && t.recvObj != nil {
+					set[t.recvObj] = true
 				}
 			}
 			return true
@@ -1055,6 +1227,9 @@ func (t *fn) varTy(o types.Object) *ty {
 	if o == t.recvObj && t.recvTy != nil {
 		return t.recvTy
 	}
+	if ft := t.funcPar[o]; ft != nil {
+		return ft
+	}
 	r, err := t.goType(o.Type())
 	if err != nil {
 		panic(reject{fmt.Sprintf("variable %s: %v", o.Name(), err)})
@@ -1097,10 +1272,11 @@ func (t *fn) stmt(s ast.Stmt, c *ctx, k func() []string) []string {
 		if !ok {
 			t.reject(x, "expression statement `%s` is outside the subset", t.text(x))
 		}
-		if id, ok := ast.Unparen(ce.Fun).(*ast.Ident); ok && id.Name == "copy" {
-			if _, isB := t.pkg.info.ObjectOf(id).(*types.Builtin); isB {
-				t.reject(x, "copy(...) is outside the subset")
-			}
+		if t.isBuiltinCall(ce, "copy") {
+			return t.withPre(func() []string {
+				t.copyCall(ce)
+				return k()
+			})
 		}
 		return t.withPre(func() []string {
 			t.call(ce, 0)
@@ -1289,6 +1465,9 @@ func (t *fn) checkWritable(base ast.Expr) {
 		t.reject(base, "write through `%s`: only locals created in this function and receiver fields may be written (aliasing)", t.text(base))
 	case *ast.Ident:
 		o := t.pkg.info.ObjectOf(b)
+		if t.inoutSet[o] {
+			return
+		}
 		if !t.freshLocal(o) {
 			t.reject(base, "write `%s[...] = ...`: `%s` is not a local created by make/append/literal in this function (it may alias the caller's slice)", b.Name, b.Name)
 		}
@@ -1356,19 +1535,6 @@ func (t *fn) freshLocal(o types.Object) bool {
 					okAll = false
 				}
 			}
-			// o used as a right-hand side of a plain alias `y := o` / `y = o[a:b]`
-			for _, r := range s.Rhs {
-				switch rr := ast.Unparen(r).(type) {
-				case *ast.Ident:
-					if t.pkg.info.ObjectOf(rr) == o {
-						okAll = false
-					}
-				case *ast.SliceExpr:
-					if id, ok := ast.Unparen(rr.X).(*ast.Ident); ok && t.pkg.info.ObjectOf(id) == o {
-						okAll = false
-					}
-				}
-			}
 		case *ast.ValueSpec:
 			for i, n := range s.Names {
 				if t.pkg.info.Defs[n] != o {
@@ -1385,7 +1551,81 @@ func (t *fn) freshLocal(o types.Object) bool {
 		}
 		return true
 	})
-	return seen && okAll
+	return seen && okAll && t.aliasReason(o) == ""
+}
+
+// aliasReason: "" when no second name for the backing array of the slice variable o is created in
+// this function; otherwise the construct that creates one:
+//   `y := o`, `y = o[a:b]`, `var y = o` (unless `r.f = o` hands o over to the receiver, movedAway),
+//   o inside a composite literal, o (or a slice of it) passed to a call whose results can hold a slice.
+func (t *fn) aliasReason(o types.Object) string {
+	why := ""
+	isO := func(e ast.Expr) bool {
+		switch rr := ast.Unparen(e).(type) {
+		case *ast.Ident:
+			return t.pkg.info.ObjectOf(rr) == o
+		case *ast.SliceExpr:
+			if id, ok := ast.Unparen(rr.X).(*ast.Ident); ok && t.pkg.info.ObjectOf(id) == o {
+				return true
+			}
+		}
+		return false
+	}
+	ast.Inspect(t.decl.Body, func(m ast.Node) bool {
+		if why != "" {
+			return false
+		}
+		switch s := m.(type) {
+		case *ast.AssignStmt:
+			for _, r := range s.Rhs {
+				if !isO(r) {
+					continue
+				}
+				if _, isId := ast.Unparen(r).(*ast.Ident); isId && t.movedAway(s, o) {
+					continue
+				}
+				why = t.text(s)
+			}
+		case *ast.ValueSpec:
+			for _, r := range s.Values {
+				if isO(r) {
+					why = "var " + s.Names[0].Name + " = " + t.text(r)
+				}
+			}
+		case *ast.CompositeLit:
+			if t.mentions(s, o) {
+				why = t.text(s)
+			}
+		case *ast.CallExpr:
+			if tv, ok := t.pkg.info.Types[s.Fun]; ok && tv.IsType() {
+				return true
+			}
+			if id, ok := ast.Unparen(s.Fun).(*ast.Ident); ok {
+				if _, isB := t.pkg.info.ObjectOf(id).(*types.Builtin); isB {
+					return true
+				}
+			}
+			passed := false
+			for _, a := range s.Args {
+				if isO(a) {
+					passed = true
+				}
+			}
+			if !passed {
+				return true
+			}
+			if sig, ok := t.typeOf(s.Fun).Underlying().(*types.Signature); ok {
+				for i := 0; i < sig.Results().Len(); i++ {
+					rt, err := t.goType(sig.Results().At(i).Type())
+					if err != nil || (rt.k == kList && !rt.str) || rt.k == kStruct {
+						why = "the result of " + t.text(s) + " may alias it"
+					}
+				}
+			}
+		}
+		return true
+	})
+	return why
 }
 
 // checkRecvFieldUnaliased: the slice field is never copied into another name in this function.
@@ -1459,6 +1699,11 @@ func (t *fn) assign(x *ast.AssignStmt) []string {
 		t.reject(x, "assignment count mismatch")
 	}
 	if len(x.Lhs) == 1 {
+		if ce, ok := ast.Unparen(x.Rhs[0]).(*ast.CallExpr); ok && t.isBuiltinCall(ce, "copy") {
+			// `n := copy(dst, src)`: the copy first (it rebinds dst), then the count is stored
+			v := t.copyCall(ce)
+			return t.assignTo(x.Lhs[0], v)
+		}
 		v := t.ex(x.Rhs[0])
 		return t.assignTo(x.Lhs[0], v)
 	}
@@ -1555,7 +1800,7 @@ func (t *fn) switchStmt(x *ast.SwitchStmt, c *ctx, k func() []string) []string {
 				}
 			}
 			// every clause continues with k (duplicated): a switch is a chain of terminal ifs
-			c2 := &ctx{ret: c.ret, brk: k, cont: c.cont}
+			c2 := &ctx{ret: c.ret, retFull: c.retFull, brk: k, cont: c.cont}
 			var chain func(i int) []string
 			chain = func(i int) []string {
 				if i == len(clauses) {
@@ -1585,7 +1830,14 @@ func (t *fn) switchStmt(x *ast.SwitchStmt, c *ctx, k func() []string) []string {
 							v := t.ex(e)
 							t.pre = save
 							if len(sub) > 0 {
-								t.reject(e, "case condition that can panic is outside the subset")
+								// evaluated like the condition of an if/else-if chain: the bindings go in front of
+								// this clause's `if`, inside the else branch of the previous clause
+								if len(cc.List) > 1 {
+									t.reject(e, "case with several conditions one of which can panic is outside the subset")
+								}
+								for _, l := range sub {
+									t.emit(l)
+								}
 							}
 							conds = append(conds, v)
 						}
@@ -1698,7 +1950,7 @@ func (t *fn) loop(node ast.Node, cond ast.Expr, bodyHead func(c *ctx, k func() [
 	}
 	_ = stTys
 	sigma := tupleTy(stT)
-	rho := tupleTy(t.resTy)
+	rho := t.fullResTy()
 	resT := sigma
 	done := func(v string) string { return ".ok " + parenIf(v) }
 	if hasRet {
@@ -1717,18 +1969,21 @@ func (t *fn) loop(node ast.Node, cond ast.Expr, bodyHead func(c *ctx, k func() [
 		return []string{strings.TrimSpace(lname + " fuel " + strings.Join(append(append([]string{}, capNames...), stNames...), " "))}
 	}
 	exit := func() []string { return []string{done(tuple(stNames))} }
+	// a `return` inside the loop hands the COMPLETE result up (results, then the current values of
+	// the in-out parameters and of the receiver): they may have been written in this iteration
 	lc := &ctx{
 		ret: func(v string) []string {
 			if !hasRet {
 				return []string{".panic"} // unreachable: hasRet covers every return
 			}
-			return []string{".ok (.ret " + parenIf(v) + ")"}
+			return []string{".ok (.ret " + parenIf(t.buildFull(v)) + ")"}
 		},
-		brk: exit,
+		retFull: func(f string) []string { return []string{".ok (.ret " + parenIf(f) + ")"} },
+		brk:     exit,
 	}
 	next := func() []string {
 		if post != nil {
-			return t.stmt(post, &ctx{ret: lc.ret}, recurse)
+			return t.stmt(post, &ctx{ret: lc.ret, retFull: lc.retFull}, recurse)
 		}
 		return recurse()
 	}
@@ -1767,7 +2022,7 @@ func (t *fn) loop(node ast.Node, cond ast.Expr, bodyHead func(c *ctx, k func() [
 	v := t.fresh("rv")
 	lines := []string{fmt.Sprintf("let %s ← %s (%s) %s", r, lname, fuel, callArgs), "match " + r + " with"}
 	lines = append(lines, "| .ret "+v+" =>")
-	lines = append(lines, indent(c.ret(v))...)
+	lines = append(lines, indent(c.retFull(v))...)
 	lines = append(lines, "| .done "+tuple(stNames)+" =>")
 	lines = append(lines, indent(k())...)
 	return lines
@@ -1822,8 +2077,8 @@ func (t *fn) rangeStmt(x *ast.RangeStmt, c *ctx, k func() []string) []string {
 			if id, ok := ast.Unparen(x.X).(*ast.Ident); ok {
 				o := t.pkg.info.ObjectOf(id)
 				for _, a := range t.assignedOuter(x.Body) {
-					if a == o {
-						t.reject(x, "the ranged slice `%s` is assigned in the loop body: outside the subset", id.Name)
+					if a == o && !t.onlyCurrentIndexWrites(x, o) {
+						t.reject(x, "the ranged slice `%s` is assigned in the loop body (other than `%s[<range index>] = …`): outside the subset", id.Name, id.Name)
 					}
 				}
 			} else if _, ok := ast.Unparen(x.X).(*ast.SelectorExpr); ok {
@@ -1937,7 +2192,7 @@ func (t *fn) rangeLoop(x *ast.RangeStmt, idx string, cnt *types.Var, limit strin
 	outNames := stNames[1:]
 	outT := stT[1:]
 	sigma := tupleTy(outT)
-	rho := tupleTy(t.resTy)
+	rho := t.fullResTy()
 	resT := sigma
 	done := func(v string) string { return ".ok " + parenIf(v) }
 	if hasRet {
@@ -1946,8 +2201,9 @@ func (t *fn) rangeLoop(x *ast.RangeStmt, idx string, cnt *types.Var, limit strin
 	}
 	exit := func() []string { return []string{done(tuple(outNames))} }
 	lc := &ctx{
-		ret: func(v string) []string { return []string{".ok (.ret " + parenIf(v) + ")"} },
-		brk: exit,
+		ret:     func(v string) []string { return []string{".ok (.ret " + parenIf(t.buildFull(v)) + ")"} },
+		retFull: func(f string) []string { return []string{".ok (.ret " + parenIf(f) + ")"} },
+		brk:     exit,
 	}
 	next := func() []string {
 		args := append(append([]string{}, capNames...), "("+idx+" + 1)")
@@ -1978,8 +2234,533 @@ func (t *fn) rangeLoop(x *ast.RangeStmt, idx string, cnt *types.Var, limit strin
 	v := t.fresh("rv")
 	lines := []string{fmt.Sprintf("let %s ← %s (%s) %s", r, lname, fuel, callArgs), "match " + r + " with"}
 	lines = append(lines, "| .ret "+v+" =>")
-	lines = append(lines, indent(c.ret(v))...)
+	lines = append(lines, indent(c.retFull(v))...)
 	lines = append(lines, "| .done "+tuple(outNames)+" =>")
 	lines = append(lines, indent(k())...)
 	return lines
+}
+
+// ---------------------------------------------------------------- copy, ownership moves
+
+func (t *fn) isBuiltinCall(ce *ast.CallExpr, name string) bool {
+	id, ok := ast.Unparen(ce.Fun).(*ast.Ident)
+	if !ok || id.Name != name {
+		return false
+	}
+	_, isB := t.pkg.info.ObjectOf(id).(*types.Builtin)
+	return isB
+}
+
+// copyCall translates `copy(dst, src)`; the returned term is the number of elements copied.
+//
+// Evaluation order implemented (Go spec, "Order of evaluation" + "Appending to and copying
+// slices"): the operands of dst (its index expressions, then the bounds check of `dst[a:b]` when
+// src contains a call), then src, then the copy itself, which behaves like memmove: src is read as
+// it was before the call (in the list model src is a value, so this holds by construction, also for
+// `copy(x[1:], x)`).  The spec leaves the order of a slice-bounds panic relative to function calls
+// in LATER operands open; both orders end in a non-ok outcome here.
+// dst must be writable without aliasing: a local created in this function, an in-out parameter
+// or a field of the receiver — or a slice expression `w[a:b]` / `w[a:]` / `w[:b]` of one of those
+// (write-through into w; len w is unchanged).
+func (t *fn) copyCall(x *ast.CallExpr) string {
+	if len(x.Args) != 2 || x.Ellipsis != token.NoPos {
+		t.reject(x, "malformed copy")
+	}
+	dt := t.tyOf(x.Args[0])
+	st := t.tyOf(x.Args[1])
+	if dt.k != kList || dt.str || st.k != kList || !sameTy(dt.elem, st.elem) {
+		t.reject(x, "copy(%s, %s): operand types outside the subset", t.text(x.Args[0]), t.text(x.Args[1]))
+	}
+	dst := ast.Unparen(x.Args[0])
+	var window *ast.SliceExpr
+	base := dst
+	if se, ok := dst.(*ast.SliceExpr); ok {
+		if se.Slice3 {
+			t.reject(x, "3-index slice expression is outside the subset (capacity is not modelled)")
+		}
+		window = se
+		base = ast.Unparen(se.X)
+	}
+	switch base.(type) {
+	case *ast.Ident, *ast.SelectorExpr:
+	default:
+		t.reject(x, "copy into `%s`: the destination must be a variable, a receiver field or a slice expression of one", t.text(dst))
+	}
+	t.checkWritable(base)
+	cur := t.arg(base)
+	cp := ""
+	if window == nil {
+		src := t.arg(x.Args[1])
+		cp = t.fresh("cp")
+		t.emit(fmt.Sprintf("let %s := GoSem.copySlice %s %s", cp, cur, src))
+	} else {
+		toInt := func(e ast.Expr) string {
+			i, isInt := t.indexTerm(e)
+			if isInt {
+				return parenIf(i)
+			}
+			return "(Int.ofNat " + i + ")"
+		}
+		lo := "0"
+		if window.Low != nil {
+			lo = toInt(window.Low)
+		}
+		hi := "(Int.ofNat " + cur + ".length)"
+		if window.High != nil {
+			hi = toInt(window.High)
+		}
+		hasCall := false
+		ast.Inspect(x.Args[1], func(m ast.Node) bool {
+			if ce, ok := m.(*ast.CallExpr); ok {
+				if tv, ok := t.pkg.info.Types[ce.Fun]; !(ok && tv.IsType()) {
+					if id, ok := ast.Unparen(ce.Fun).(*ast.Ident); ok {
+						if _, isB := t.pkg.info.ObjectOf(id).(*types.Builtin); isB {
+							return true
+						}
+					}
+					hasCall = true
+				}
+			}
+			return true
+		})
+		if hasCall {
+			t.emit(fmt.Sprintf("let _ ← GoSem.slice %s %s %s", cur, lo, hi))
+		}
+		src := t.arg(x.Args[1])
+		cp = t.fresh("cp")
+		t.emit(fmt.Sprintf("let %s ← GoSem.copyAt %s %s %s %s", cp, cur, lo, hi, src))
+	}
+	for _, l := range t.assignTo(base, cp+".1") {
+		t.emit(l)
+	}
+	t.noteInt(x)
+	return cp + ".2"
+}
+
+// parentMap: child -> parent for the nodes of the function body.
+func (t *fn) parentMap() map[ast.Node]ast.Node {
+	if t.parents != nil {
+		return t.parents
+	}
+	t.parents = map[ast.Node]ast.Node{}
+	var stack []ast.Node
+	ast.Inspect(t.decl.Body, func(n ast.Node) bool {
+		if n == nil {
+			stack = stack[:len(stack)-1]
+			return true
+		}
+		if len(stack) > 0 {
+			t.parents[n] = stack[len(stack)-1]
+		}
+		stack = append(stack, n)
+		return true
+	})
+	return t.parents
+}
+
+func (t *fn) mentions(n ast.Node, o types.Object) bool {
+	found := false
+	ast.Inspect(n, func(m ast.Node) bool {
+		if id, ok := m.(*ast.Ident); ok && t.pkg.info.ObjectOf(id) == o {
+			found = true
+		}
+		return !found
+	})
+	return found
+}
+
+// movedAway: the statement `r.f = o` (r the receiver) hands the local slice o over to the receiver
+// field: it is not an alias when o is dead afterwards — no statement that can run after the
+// assignment mentions o.  Checked syntactically: walking outwards from the assignment, the rest of
+// every enclosing statement list must not mention o; the walk stops at a list that ends in a
+// `return`/`panic(...)` and contains no break/continue/goto after the assignment; crossing a loop
+// rejects (the next iteration could use o again).
+func (t *fn) movedAway(as *ast.AssignStmt, o types.Object) bool {
+	if len(as.Lhs) != 1 || len(as.Rhs) != 1 || as.Tok != token.ASSIGN {
+		return false
+	}
+	ls, ok := ast.Unparen(as.Lhs[0]).(*ast.SelectorExpr)
+	if !ok || t.recvObj == nil || t.recvTy == nil {
+		return false
+	}
+	if id, ok := ast.Unparen(ls.X).(*ast.Ident); !ok || t.pkg.info.ObjectOf(id) != t.recvObj {
+		return false
+	}
+	par := t.parentMap()
+	var cur ast.Node = as
+	for {
+		p := par[cur]
+		if p == nil {
+			return false
+		}
+		var list []ast.Stmt
+		switch b := p.(type) {
+		case *ast.BlockStmt:
+			list = b.List
+		case *ast.CaseClause:
+			list = b.Body
+		case *ast.ForStmt, *ast.RangeStmt, *ast.FuncLit, *ast.SelectStmt, *ast.CommClause, *ast.LabeledStmt:
+			return false
+		default:
+			cur = p
+			continue
+		}
+		idx := -1
+		for i, st := range list {
+			if st == cur {
+				idx = i
+			}
+		}
+		if idx < 0 {
+			return false
+		}
+		rest := list[idx+1:]
+		jumps := false
+		for _, st := range rest {
+			if t.mentions(st, o) {
+				return false
+			}
+			ast.Inspect(st, func(m ast.Node) bool {
+				if _, ok := m.(*ast.BranchStmt); ok {
+					jumps = true
+				}
+				return true
+			})
+		}
+		if len(rest) > 0 && !jumps {
+			last := rest[len(rest)-1]
+			if _, isRet := last.(*ast.ReturnStmt); isRet || isPanicCall(t.pkg.info, last) {
+				return true
+			}
+		}
+		if p == ast.Node(t.decl.Body) {
+			return true // end of the function
+		}
+		cur = p
+	}
+}
+
+// writtenArgs: the arguments of a call that the callee writes (in-out slice arguments).
+func (t *fn) writtenArgs(ce *ast.CallExpr) []ast.Expr {
+	fun := ast.Unparen(ce.Fun)
+	if ix, ok := fun.(*ast.IndexExpr); ok {
+		fun = ast.Unparen(ix.X)
+	}
+	id, ok := fun.(*ast.Ident)
+	if !ok {
+		return nil
+	}
+	switch o := t.pkg.info.ObjectOf(id).(type) {
+	case *types.Var:
+		if ft := t.funcPar[o]; ft != nil && ft.fnMut && len(ce.Args) > 0 {
+			return []ast.Expr{ce.Args[0]}
+		}
+	case *types.Func:
+		if o.Pkg() == nil || o.Type().(*types.Signature).Recv() != nil {
+			return nil
+		}
+		if !(o.Pkg().Path() == t.g.l.modPath || strings.HasPrefix(o.Pkg().Path(), t.g.l.modPath+"/")) {
+			return nil
+		}
+		dir := strings.TrimPrefix(strings.TrimPrefix(o.Pkg().Path(), t.g.l.modPath), "/")
+		if dir == "" {
+			dir = "."
+		}
+		dep := t.g.translate(dir, o.Name(), false)
+		if dep == nil || !dep.OK || dep.Sig == nil {
+			return nil
+		}
+		var out []ast.Expr
+		for _, ix := range dep.Sig.InOut {
+			if ix < len(ce.Args) {
+				out = append(out, ce.Args[ix])
+			}
+		}
+		return out
+	}
+	return nil
+}
+
+// outNames: the current names of what the function returns after its results.
+func (t *fn) outNames() []string {
+	var outs []string
+	for _, o := range t.inout {
+		outs = append(outs, t.names[o])
+	}
+	if t.recvOut {
+		outs = append(outs, t.names[t.recvObj])
+	}
+	return outs
+}
+
+// buildFull: the complete return value for the tupled results v.
+func (t *fn) buildFull(v string) string {
+	outs := t.outNames()
+	if len(outs) == 0 {
+		return v
+	}
+	if len(t.resTy) == 0 {
+		return tuple(outs)
+	}
+	return "(" + v + ", " + strings.Join(outs, ", ") + ")"
+}
+
+// fullResTy: the Lean type of the complete return value: `(A × B) × Out1 × … × Recv`.
+func (t *fn) fullResTy() string {
+	resStr := tupleTy(t.resTy)
+	var outs []string
+	for _, o := range t.inout {
+		outs = append(outs, t.varTy(o).lean())
+	}
+	if t.recvOut {
+		outs = append(outs, t.recvTy.lean())
+	}
+	if len(outs) == 0 {
+		return resStr
+	}
+	if len(t.resTy) == 0 {
+		return strings.Join(outs, " × ")
+	}
+	if len(t.resTy) > 1 {
+		resStr = "(" + resStr + ")"
+	}
+	return resStr + " × " + strings.Join(outs, " × ")
+}
+
+// findInOut decides up front which slice parameters are WRITTEN (element assignment, copy
+// destination, handed to a callee/callback that writes it): they become in-out parameters.
+func (t *fn) findInOut(sig *types.Signature) {
+	t.inoutSet = map[types.Object]bool{}
+	for i := 0; i < sig.Params().Len(); i++ {
+		p := sig.Params().At(i)
+		if _, ok := p.Type().Underlying().(*types.Slice); !ok {
+			continue
+		}
+		if _, known := t.names[p]; !known {
+			continue
+		}
+		written, reassigned := false, ""
+		isP := func(e ast.Expr) bool {
+			id, ok := ast.Unparen(e).(*ast.Ident)
+			return ok && t.pkg.info.ObjectOf(id) == types.Object(p)
+		}
+		lhs := func(e ast.Expr, n ast.Node) {
+			if isP(e) {
+				reassigned = t.text(n)
+				return
+			}
+			for {
+				switch x := ast.Unparen(e).(type) {
+				case *ast.IndexExpr:
+					if isP(x.X) {
+						written = true
+					}
+					e = x.X
+					continue
+				}
+				return
+			}
+		}
+		ast.Inspect(t.decl.Body, func(m ast.Node) bool {
+			switch s := m.(type) {
+			case *ast.AssignStmt:
+				if s.Tok == token.DEFINE {
+					// a redeclaration in an inner scope is another object
+				}
+				for _, l := range s.Lhs {
+					lhs(l, s)
+				}
+			case *ast.IncDecStmt:
+				lhs(s.X, s)
+			case *ast.RangeStmt:
+				if s.Tok == token.ASSIGN {
+					if s.Key != nil {
+						lhs(s.Key, s)
+					}
+					if s.Value != nil {
+						lhs(s.Value, s)
+					}
+				}
+			case *ast.CallExpr:
+				if t.isBuiltinCall(s, "copy") && len(s.Args) > 0 {
+					d := ast.Unparen(s.Args[0])
+					if se, ok := d.(*ast.SliceExpr); ok {
+						d = se.X
+					}
+					if isP(d) {
+						written = true
+					}
+				}
+				for _, a := range t.writtenArgs(s) {
+					if isP(a) {
+						written = true
+					}
+				}
+			}
+			return true
+		})
+		if !written {
+			continue
+		}
+		if reassigned != "" {
+			t.reject(t.decl, "the slice parameter `%s` is written and also reassigned (`%s`): outside the subset (the caller sees the writes to the elements only)", p.Name(), reassigned)
+		}
+		if why := t.aliasReason(p); why != "" {
+			t.reject(t.decl, "the slice parameter `%s` is written while `%s` makes another name refer to its backing array (aliasing)", p.Name(), why)
+		}
+		// no result may alias it
+		ast.Inspect(t.decl.Body, func(m ast.Node) bool {
+			if _, ok := m.(*ast.FuncLit); ok {
+				return false
+			}
+			rs, ok := m.(*ast.ReturnStmt)
+			if !ok {
+				return true
+			}
+			for _, r := range rs.Results {
+				rt, err := t.goType(t.typeOf(r))
+				if t.mentions(r, p) && (err != nil || (rt.k == kList && !rt.str) || rt.k == kStruct) {
+					t.reject(rs, "`%s` returns a value that may alias the written slice parameter `%s`: outside the subset", t.text(rs), p.Name())
+				}
+			}
+			return true
+		})
+		t.inout = append(t.inout, p)
+		t.inoutSet[p] = true
+	}
+}
+
+
+// onlyCurrentIndexWrites: in `for i, v := range a { … }` every write to `a` in the body is an
+// element assignment `a[i] = …` / `a[i] op= …` / `a[i]++` at the CURRENT range index i, and i is
+// not assigned in the body.  Then the element variable may be read from the snapshot of `a` taken
+// before the loop: Go reads a[k] at the start of iteration k from the live array, but at that
+// moment only elements with an index < k have been written (Go spec, "For statements with range
+// clause": the range expression is evaluated once, its length is fixed, elements are read per
+// iteration).  Other reads of `a` in the body go through the threaded variable and see the writes.
+func (t *fn) onlyCurrentIndexWrites(x *ast.RangeStmt, o types.Object) bool {
+	if x.Tok != token.DEFINE || x.Key == nil {
+		return false
+	}
+	kid, ok := x.Key.(*ast.Ident)
+	if !ok || kid.Name == "_" {
+		return false
+	}
+	key := t.pkg.info.Defs[kid]
+	if key == nil {
+		return false
+	}
+	for _, a := range t.assignedOuter(x.Body) {
+		if a == key {
+			return false
+		}
+	}
+	okAll := true
+	isO := func(e ast.Expr) bool {
+		id, ok := ast.Unparen(e).(*ast.Ident)
+		return ok && t.pkg.info.ObjectOf(id) == o
+	}
+	// base variable of a place expression
+	var baseIs func(e ast.Expr) bool
+	baseIs = func(e ast.Expr) bool {
+		switch v := ast.Unparen(e).(type) {
+		case *ast.Ident:
+			return t.pkg.info.ObjectOf(v) == o
+		case *ast.IndexExpr:
+			return baseIs(v.X)
+		case *ast.SliceExpr:
+			return baseIs(v.X)
+		case *ast.SelectorExpr:
+			return baseIs(v.X)
+		}
+		return false
+	}
+	lhs := func(e ast.Expr) {
+		if !baseIs(e) {
+			return
+		}
+		ie, ok := ast.Unparen(e).(*ast.IndexExpr)
+		if !ok || !isO(ie.X) {
+			okAll = false
+			return
+		}
+		iid, ok := ast.Unparen(ie.Index).(*ast.Ident)
+		if !ok || t.pkg.info.ObjectOf(iid) != key {
+			okAll = false
+		}
+	}
+	ast.Inspect(x.Body, func(m ast.Node) bool {
+		switch s := m.(type) {
+		case *ast.FuncLit:
+			okAll = false
+		case *ast.AssignStmt:
+			for _, l := range s.Lhs {
+				lhs(l)
+			}
+		case *ast.IncDecStmt:
+			lhs(s.X)
+		case *ast.RangeStmt:
+			if s.Tok == token.ASSIGN {
+				if s.Key != nil {
+					lhs(s.Key)
+				}
+				if s.Value != nil {
+					lhs(s.Value)
+				}
+			}
+		case *ast.CallExpr:
+			if t.isBuiltinCall(s, "copy") && len(s.Args) > 0 && baseIs(s.Args[0]) {
+				okAll = false
+			}
+			for _, a := range t.writtenArgs(s) {
+				if baseIs(a) {
+					okAll = false
+				}
+			}
+		}
+		return true
+	})
+	return okAll
+}
+
+// callbackCall: a call of a callback parameter.  Arguments are evaluated left to right (Go spec,
+// "Order of evaluation"), then the callback runs.
+//   pure callback:      `cmp(a, b)`     ↦ the term `(cmp a b)` (no panic, no effect: ASSUMPTION in the header)
+//   mutating callback:  `swap(s, i, j)` ↦ `let s ← swap s i j`, only as a statement; s must be a plain
+//                       variable that nobody else refers to (in-out parameter or local created here)
+//                       and must not occur in the other arguments.
+func (t *fn) callbackCall(x *ast.CallExpr, v *types.Var, ft *ty, want int) []string {
+	if len(x.Args) != len(ft.fnArgs) {
+		t.reject(x, "call of the callback `%s` with a multi-value argument is outside the subset", v.Name())
+	}
+	name := t.names[v]
+	if !ft.fnMut {
+		args := []string{name}
+		for _, a := range x.Args {
+			args = append(args, t.arg(a))
+		}
+		return []string{"(" + strings.Join(args, " ") + ")"}
+	}
+	if want != 0 {
+		t.reject(x, "internal: mutating callback in expression position")
+	}
+	id, ok := ast.Unparen(x.Args[0]).(*ast.Ident)
+	if !ok {
+		t.reject(x, "`%s`: the slice handed to the callback `%s` must be a plain variable", t.text(x.Args[0]), v.Name())
+	}
+	o := t.pkg.info.ObjectOf(id)
+	if !t.inoutSet[o] && !t.freshLocal(o) {
+		t.reject(x, "the slice `%s` handed to the callback `%s` is neither an in-out parameter nor a local created by make/append/literal here (it may alias another slice)", id.Name, v.Name())
+	}
+	for _, a := range x.Args[1:] {
+		if t.mentions(a, o) {
+			t.reject(x, "the slice `%s` handed to the callback `%s` occurs in another argument too", id.Name, v.Name())
+		}
+	}
+	args := []string{name, t.nameOf(o)}
+	for _, a := range x.Args[1:] {
+		args = append(args, t.arg(a))
+	}
+	t.emit(fmt.Sprintf("let %s ← %s", t.nameOf(o), strings.Join(args, " ")))
+	return []string{"()"}
 }
